@@ -1343,9 +1343,27 @@ class Rsa(Base):
         m = key["nbits"] % 8
         return "nbits%8=" + ("0" if m == 0 else ("1" if m == 1 else "other"))
 
+    def overlong(self, sig, key):
+        """'basic' layout only: the recovered block is 00.. FF D with D longer than a digest.  cp_rsa_ver copies D
+        into a digest-sized stack buffer (fatal on the unchanged tree), so this input class is produced by its
+        directed case only and the other generators draw around it."""
+        if self.pad != "basic" or not sig:
+            return False
+        em = pow(int.from_bytes(sig, "big") % key["n"], key["e"], key["n"]).to_bytes(key["k"], "big")
+        i = 0
+        while i < len(em) and em[i] == 0:
+            i += 1
+        return 0 < i < len(em) and em[i] == 0xFF and len(em) - i - 1 > cprt.HL
+
     def one(self, cls, mode, key, sig, msg, pre, extra=None):
         """one verdict comparison"""
         ctx = self.ctx
+        if pre and len(msg) != cprt.HL:
+            # a pre-hashed "message" that is not a digest of the configured hash: class of its own
+            cls = "digest-empty" if not msg else ("digest-len<%d" % cprt.HL if len(msg) < cprt.HL else "digest-len>%d" % cprt.HL)
+        if cls != "overlong-digest" and self.overlong(sig, key):
+            ctx.add("drawn_around_overlong_digest")
+            return
         if not ctx.begin("cp_rsa_ver|%s,%s,%s" % (cls, mode, self.kcls(key)),
                          [key["bits"], sig.hex(), msg.hex() if len(msg) <= 64 else [len(msg), H(msg).hex()], extra]):
             return
@@ -1357,6 +1375,14 @@ class Rsa(Base):
             ctx.fail(ctx.cur_key + "|" + e.kind, e.detail)
         finally:
             ctx.end()
+
+    def directed_overlong(self, key):
+        """first case of shard 0 in the 'basic' build"""
+        n, d, k = key["n"], key["d"], key["k"]
+        msg = b"abc"
+        mh = H(msg)
+        for em in (bytes(k - 2 - len(mh) - 60) + b"\xff" + mh + self.rbytes(60), b"\x00\xff" + self.rbytes(k - 2 - len(mh)) + mh):
+            self.one("overlong-digest", "hashed", key, pow(int.from_bytes(em, "big"), d, n).to_bytes(k, "big"), msg, 0)
 
     def run_key(self, key, heavy):
         ctx, R, rng = self.ctx, self.R, self.rng
@@ -1415,8 +1441,8 @@ class Rsa(Base):
                 cs.append(("sig+N,same-length", tob(sv + n), msg))
             cs.append(("leading-zero-stripped" if sg[0] == 0 else "truncated", sg[1:], msg))
             if pre:
-                cs += [("digest-empty", sg, b""), ("digest-short", sg, msg[:31]), ("digest-short", sg, msg[:1]),
-                       ("digest-long", sg, msg + b"\0"), ("digest-long", sg, msg + msg)]
+                cs += [("digest", sg, b""), ("digest", sg, msg[:31]), ("digest", sg, msg[:1]),
+                       ("digest", sg, msg + b"\0"), ("digest", sg, msg + msg)]
             for cls, sb, mb in cs:
                 self.one(cls, mode, key, sb, mb, pre)
 
@@ -1488,9 +1514,15 @@ class Rsa(Base):
                     craft("trailing-garbage", b"\x00\x01" + b"\xff" * 8 + b"\x00" + t + self.rbytes(k - 11 - len(t)), msg, pre)
                 else:
                     craft("marker", bytes(k - 1 - len(mh)) + b"\xfe" + mh, msg, pre)
-                    craft("digest-long", bytes(k - 2 - len(mh) - 60) + b"\xff" + mh + self.rbytes(60), msg, pre)
-                    craft("digest-long", b"\x00\xff" + self.rbytes(k - 2 - len(mh)) + mh, msg, pre)
-                    craft("digest-short", bytes(k - len(mh)) + b"\xff" + mh[:-1], msg, pre)
+                    # a payload one octet short is zero-extended by the verifier: equal to the digest iff its last octet is 0
+                    craft("digest-short" + (",last-octet-zero" if mh[-1] == 0 else ""), bytes(k - len(mh)) + b"\xff" + mh[:-1], msg, pre)
+                    mz = self.rbytes(8)
+                    for _ in range(600):
+                        if H(mz)[-1] == 0:
+                            break
+                        mz = self.rbytes(8)
+                    if H(mz)[-1] == 0 and not pre:
+                        craft("digest-short,last-octet-zero", bytes(k - cprt.HL) + b"\xff" + H(mz)[:-1], mz, 0)
                     craft("double-marker", bytes(k - 2 - len(mh)) + b"\xff\xff" + mh, msg, pre)
                 craft("other-digest", self.encode(H(mh), pre, key), msg, pre)
             if heavy and it == 0:
@@ -1527,6 +1559,8 @@ def run_rsa(ctx):
             continue
         c = w.kcls(key)
         seen[c] = seen.get(c, 0) + 1
+        if i == 0 and ctx.shard == 0 and w.pad == "basic":
+            w.directed_overlong(key)
         w.run_key(key, heavy=(i < 2))
     for bits in (1002, 994, 986, 978, 970, 962, 954, 946, 938, 930, 922, 914):
         if "nbits%8=1" in seen:
